@@ -119,7 +119,9 @@ func runC13(c *Ctx) {
 			for _, i := range permute(c.Rng, len(sks)) {
 				if sks[i].scope != nil {
 					cp := *sks[i].scope
-					if n%3 == 1 && len(sks[i].key)%2 == 0 {
+					// (by value or by pointer: how a scope is held is not content - decided afresh in every build, except
+					// in the contents whose scopes are edited after filing, below)
+					if (n%4 != 2 && c.Rng.Intn(2) == 0) || (n%4 == 2 && n%3 == 1 && len(sks[i].key)%2 == 0) {
 						ac.SigningKeys.AddScopedSigner(cp) // held by value
 					} else {
 						ac.SigningKeys.AddScopedSigner(&cp)
